@@ -358,4 +358,35 @@ theorem kepler_equation_of_search {e : ℝ} (he0 : 0 ≤ e) (he1 : e < 1) {M f m
   simp only [patan, ptan]
   norm_num
 
+
+/-- Everything `kepler_equation` does, for `0 ≤ e < 1` and any mean anomaly `M` (degrees). -/
+theorem kepler_struct {e : ℝ} (he0 : 0 ≤ e) (he1 : e < 1) (M : ℝ) :
+    ∃ f m e0 xr : ℝ, kepler_reduce M = (f, m) ∧ (f = 1 ∨ f = -1) ∧ 0 ≤ xr ∧ xr ≤ π ∧ kep e xr = m ∧
+      kepler_search e m = some e0 ∧ |e0 - xr| ≤ gap 34 ∧ gap 34 ≤ e0 ∧ e0 ≤ π - gap 34 ∧
+      kepler_equation e M = .ok (e0 * f * (180 / π),
+        2 * Real.arctan (Real.sqrt ((1 + e) / (1 - e)) * Real.tan (e0 * f / 2)) * (180 / π)) ∧
+      (red2pi (M * (π / 180)) ≤ π → f = 1 ∧ m = red2pi (M * (π / 180))) ∧
+      (π < red2pi (M * (π / 180)) → f = -1 ∧ m = 2 * π - red2pi (M * (π / 180))) := by
+  obtain ⟨hr0, hr1, _⟩ := red2pi_spec (M * (π / 180))
+  have hg := gap_pos 34
+  by_cases hc : π < red2pi (M * (π / 180))
+  · have hred : kepler_reduce M = (-1, 2 * π - red2pi (M * (π / 180))) := by
+      rw [kepler_reduce_eq, if_pos hc]
+    obtain ⟨xr, hx0, hx1, hxm⟩ := kep_root_exists e (m := 2 * π - red2pi (M * (π / 180))) (by linarith) (by linarith)
+    obtain ⟨e0, hs, h1, h2, h3⟩ := search_spec he0 he1 hx0 hx1
+    rw [hxm] at hs
+    refine ⟨-1, _, e0, xr, hred, Or.inr rfl, hx0, hx1, hxm, hs, h1, h2, h3, ?_, ?_, ?_⟩
+    · exact kepler_equation_of_search he0 he1 hred (Or.inr rfl) hs (by linarith) (by linarith)
+    · intro h; exact absurd hc (not_lt.mpr h)
+    · intro _; exact ⟨rfl, rfl⟩
+  · have hred : kepler_reduce M = (1, red2pi (M * (π / 180))) := by
+      rw [kepler_reduce_eq, if_neg hc]
+    obtain ⟨xr, hx0, hx1, hxm⟩ := kep_root_exists e (m := red2pi (M * (π / 180))) hr0 (not_lt.mp hc)
+    obtain ⟨e0, hs, h1, h2, h3⟩ := search_spec he0 he1 hx0 hx1
+    rw [hxm] at hs
+    refine ⟨1, _, e0, xr, hred, Or.inl rfl, hx0, hx1, hxm, hs, h1, h2, h3, ?_, ?_, ?_⟩
+    · exact kepler_equation_of_search he0 he1 hred (Or.inl rfl) hs (by linarith) (by linarith)
+    · intro _; exact ⟨rfl, rfl⟩
+    · intro h; exact absurd h hc
+
 end Pymeeus.Refine.Kepler
